@@ -6,8 +6,9 @@ wt=$(mktemp -d /tmp/mutrepo_XXXXXX); rmdir "$wt"
 git -C /repo worktree add -q --detach "$wt" HEAD || exit 9
 ( git -C "$wt" apply "$patch" 2>/dev/null || git -C "$wt" apply -C1 --recount "$patch" 2>/dev/null || (cd "$wt" && patch -p1 -s --no-backup-if-mismatch < "$patch") ) || { echo "patch does not apply"; git -C /repo worktree remove --force "$wt"; exit 9; }
 out=$(mktemp /tmp/mut_out_XXXXXX)
-PVC_REPO="$wt" PVC_EVIDENCE_DIR=$(mktemp -d /tmp/mut_ev_XXXXXX) ./check "$prop" --quick "$@" > "$out" 2>&1; rc=$?
+ev=$(mktemp -d /tmp/mut_ev_XXXXXX)
+PVC_REPO="$wt" PVC_EVIDENCE_DIR="$ev" ./check "$prop" --quick "$@" > "$out" 2>&1; rc=$?
 git -C /repo worktree remove --force "$wt"
 grep -E "^(VIOLATION|UNDECIDED|ERROR|OUT-OF-REACH|NOTE|C[0-9]+ quick)" "$out" | cut -c1-260 | head -10
-rm -f "$out"
+rm -rf "$out" "$ev"
 echo "rc=$rc"
